@@ -2,7 +2,10 @@ module verifharness
 
 go 1.20
 
-require github.com/labstack/echo/v4 v4.13.3
+require (
+	github.com/labstack/echo/v4 v4.13.3
+	golang.org/x/time v0.8.0
+)
 
 require (
 	github.com/labstack/gommon v0.4.2 // indirect
@@ -14,7 +17,6 @@ require (
 	golang.org/x/net v0.33.0 // indirect
 	golang.org/x/sys v0.28.0 // indirect
 	golang.org/x/text v0.21.0 // indirect
-	golang.org/x/time v0.8.0 // indirect
 )
 
 replace github.com/labstack/echo/v4 => /repo
